@@ -316,14 +316,14 @@ class Universe(object):
         def f_inners(ctx, n, tag):
             ctl.calls.append(('inners', 'enter'))
             ctl.hit('fn')
-            return [Inner(k=i, s=u'%s%d' % (tag, i)) for i in range(n or 0)]
+            return [Inner(k=i, s=u'%s%d' % (tag, i)) for i in range(_cap(n))]
 
         def f_gen(ctx, n, tag):
             # a plain function returning a generator: entry is observable
             # when spyne calls it, not when the body first runs
             ctl.calls.append(('gen', 'enter'))
             ctl.hit('fn')
-            m = ctl.gen_len if ctl.gen_len is not None else (n or 0)
+            m = ctl.gen_len if ctl.gen_len is not None else _cap(n)
 
             def _items():
                 for i in range(m):
@@ -337,12 +337,12 @@ class Universe(object):
         def f_multi(ctx, a):
             ctl.calls.append(('multi', 'enter'))
             ctl.hit('fn')
-            return (a or 0) + 1, u'm%s' % a
+            return _num(a) + 1, u'm%s' % (a,)
 
         def f_fail(ctx, a):
             ctl.calls.append(('fail', 'enter'))
             ctl.hit('fn')
-            return a
+            return _num(a)
 
         def f_noargs(ctx):
             ctl.calls.append(('noargs', 'enter'))
@@ -358,12 +358,12 @@ class Universe(object):
             ctl.hit('fn')
             if ctl.bad_return:
                 return object()     # not an integer: serialisation fails
-            return a
+            return _num(a)
 
         def f_strict(ctx, a, s):
             ctl.calls.append(('strict', 'enter'))
             ctl.hit('fn')
-            return (a or 0) + len(s or u'')
+            return _num(a) + (len(s) if isinstance(s, str) else 0)
 
         evmgr = self.method_evmgr
 
@@ -393,7 +393,7 @@ class Universe(object):
             def f_sub(ctx, a):
                 ctl.calls.append(('sub', 'enter'))
                 ctl.hit('fn')
-                return (a or 0) * 2
+                return _num(a) * 2
             self.sub_service = type('SubSvc', (self.service,),
                            {'sub': rpc(Integer, _returns=Integer)(f_sub)})
             M['sub'] = Method('sub', [('a', s_int)], s_int)
@@ -416,6 +416,17 @@ class Universe(object):
     def gen_args(self, rng, mname):
         m = self.methods[mname]
         return dict((an, sp.gen(rng)) for an, sp in m.args)
+
+
+def _num(a):
+    """User code is total: whatever spyne hands over, it does not raise."""
+    return a if isinstance(a, int) and not isinstance(a, bool) and \
+                                                  abs(a) < 2 ** 62 else 0
+
+
+def _cap(n):
+    n = _num(n)
+    return max(0, min(n, 50))
 
 
 def _named(fn, argnames):
